@@ -1,7 +1,6 @@
 package rules
 
 import (
-	"strings"
 
 	"golang.org/x/tools/go/ssa"
 
@@ -32,7 +31,7 @@ func sseLineReaders(c *Ctx) []lineReader {
 		if !parses {
 			continue
 		}
-		if !strings.Contains(c.P.File(fn.Pos()), "client") {
+		if !clientSide(c, fn) {
 			continue
 		}
 		lr := lineReader{fn: fn}
